@@ -4,7 +4,4 @@ from loopsim import *
 
 def run(chk):
     return run_loop_check(chk, lambda n, links, t: f"check_C04 {links} {t}", "mixed",
-                          "supervision event missing, duplicated, misclassified or sent to a stranger",
-                          # thread-local children never report their (non-Send) state: coq/Loop/LocalChecks.v
-                          oracle_local_fn=lambda n, links, t: f"check_C04_local {links} {t}",
-                          extra_imports="Loop.LocalChecks")
+                          "supervision event missing, duplicated, misclassified or sent to a stranger")
